@@ -52,6 +52,8 @@ RULE = (
     "ciphertext delivered 7 bytes at a time (thorough: also 1 byte at a time), and with the ssl.create_default_context() client context. Family lib-closes: every cut of the peer's answer to the library's "
     "close_notify (EOF instead of the answer before / after the library's close, every offset inside the answer), an answer that "
     "never comes (30 s shutdown timeout on the virtual clock), healthy close with standard_compatible True / False. "
+    "High-level clients (props/c09_clients.py): the real TCPNetworkClient / AsyncTCPNetworkClient built with ssl=True (their own default context), one packet then "
+    "close_notify / no close_notify / a cut at offsets inside the close_notify (quick: 3 offsets, thorough: all), ssl_standard_compatible in {unset, True, False}. "
     "distinct_nontrivial = distinct (configuration, region of the cut, wrap result, reader result, plaintext length, close result) "
     "among cut (o < N) sessions"
 )
@@ -62,6 +64,8 @@ ASSUMPTIONS = [
     "TLS 1.3 NewSessionTicket records (post-handshake messages) are not needed for wrap() to succeed; a cut inside them is an abrupt end AFTER the handshake",
     "for H <= o with no application record complete, either wrap() raising or the first read raising is accepted (the statement only requires an error)",
     "endpoint level: 100-byte fixed-size packets (both records are multiples of it), so 'plaintext of complete records' = whole packets",
+    "client level: the clients report a clean end-of-stream AND a TLS EOF error as ConnectionAbortedError(ECONNABORTED) by design; 'reported as a clean end-of-stream' is therefore "
+    "read as 'no TLS error anywhere in the exception chain (__cause__)'. The blocking client gets the rig's AF_UNIX pair (its AF_INET-only argument check is bypassed in the harness process)",
 ]
 BOUNDS = {
     "quick": "structural subset of cut offsets (132..399 per configuration = 15-22 % of all offsets); default delivery and 7-byte fragmentation",
@@ -523,6 +527,9 @@ def jobs(tier: str) -> list[dict]:
                 for recv in ("recv", "recv_into") + (("endpoint",) if kind != "asock" else ()):
                     out.append({"tier": tier, "base": _cfg(kind, v, r, True, recv, family="lib-closes"), "part": 0, "parts": 1})
                 out.append({"tier": tier, "base": _cfg(kind, v, r, False, "recv", family="lib-closes"), "part": 0, "parts": 1})
+    from . import c09_clients
+
+    out += c09_clients.jobs(tier)  # the real TCPNetworkClient / AsyncTCPNetworkClient with ssl=True (the context they build themselves)
     return out
 
 
@@ -564,6 +571,10 @@ def key_of(cfg: dict, symptom: str) -> str:
 
 
 def run_job(job: dict) -> JobResult:
+    if job.get("kind") == "clients":
+        from . import c09_clients
+
+        return c09_clients.run_job(job)
     res = JobResult()
     base = job["base"]
     # only the thorough tier enumerates EVERY byte offset; quick enumerates the structural subset completely
@@ -640,6 +651,10 @@ def describe(cfg: dict) -> str:
 
 
 def replay(doc: dict) -> tuple[bool, str]:
+    if doc["replay"].get("kind") == "clients":
+        from . import c09_clients
+
+        return c09_clients.replay(doc)
     cfg = doc["replay"]["cfg"]
     lay = layout_of(cfg)
     lines = [f"cfg={cfg}"]
